@@ -442,11 +442,28 @@ def check_bingham(bing, z, gamma, max_concentration=np.inf, resid_tol=1e-3,
             if gaps.min() < 1e-7:
                 continue          # duplicate-eigenvalue guard of the solver
             if s_eig.min() < 3e-3:
-                # (nearly) rank-deficient scatter: the maximum-likelihood
-                # eigenvalue is unbounded (-1/s), stationarity is not
-                # decidable to a fixed tolerance
+                # strongly concentrated class: the maximum-likelihood
+                # eigenvalues are about -1/s.  A rank-deficient scatter
+                # (s ~ 0: fewer effective frames than dimensions) has no
+                # finite solution and is not judged.  Otherwise the same
+                # absolute residual as elsewhere is demanded (the solver stops
+                # on an absolute criterion: relative to the small scatter
+                # eigenvalues the unchanged tree is off by up to 400 %, which
+                # a first version of this branch wrongly flagged); this still
+                # sees a parameter that is held back by hundreds.
+                if s_eig.min() < 1e-7 or not np.all(np.isfinite(lk)):
+                    if stats is not None:
+                        stats('probe:bingham_scatter_rank_deficient')
+                    continue
+                grad = bingham_grad_log_norm(lk)
+                r = float(np.max(np.abs(grad - s_eig)))
+                note('bingham_stationarity_concentrated', r, resid_tol)
                 if stats is not None:
-                    stats('probe:bingham_scatter_rank_deficient')
+                    stats('probe:bingham_concentrated_class_judged')
+                if not r <= resid_tol:
+                    return f'Bingham eigenvalues {lk} of class {k} at {idx} do ' \
+                           f'not solve grad log c(lambda) = scatter eigenvalues ' \
+                           f'{s_eig} (residual {r:.3e}, concentrated class)'
                 continue
             grad = bingham_grad_log_norm(lk)
             r = float(np.max(np.abs(grad - s_eig)))
